@@ -165,7 +165,7 @@ Section Partition.
       { apply ret_ok in H as [<- _]. constructor. }
       destruct (find _ (o_conv o)) as [c|].
       { apply rbind_ok in H as (x & e1 & e2 & Hx & H & _). apply ret_ok in H as [<- _].
-        destruct (create_with_converter_shape d o mpos _ _ _ _ _ Hx) as [->|(arg & n & -> & _)]; constructor. }
+        destruct (create_with_converter_shape d o mpos _ _ _ _ _ Hx) as [->|(src & arg & n & _ & _ & _ & -> & _)]; constructor. }
       destruct (find _ (o_map o)) as [m|].
       { apply rbind_ok in H as (x & e1 & e2 & Hx & H & _). apply ret_ok in H as [<- _].
         destruct (create_with_mapper_shape d o mpos _ _ _ _ _ Hx) as [->|(src & n & _ & -> & _)]; constructor. }
